@@ -32,7 +32,24 @@ def gen_case(rng):
         for _ in range(rng.choice((1, 1, 2))):
             c, t = sparqlgen.gen_constraint(rng, gen.g, s, is_prop)
             templates[c] = t
+    # SPARQL-based constraint components used by the shapes (and by one extra shape)
+    ncomp = rng.choice((0, 1, 1, 2))
+    for k in range(ncomp):
+        comp, tm, params, kind = sparqlgen.gen_component(rng, gen.g, k)
+        templates.update(tm)
+        want_prop = True if kind == "prop_select" else False if kind == "node_select" else None
+        users = [sh_ for sh_, is_p in gen.shapes if rng.random() < 0.6 and (want_prop is None or is_p == want_prop)]
+        if rng.random() < 0.6 or not users:
+            users.append(gen.shape(is_prop=want_prop, n_constraints=0, complex_path=0.1))
+            gen.g.remove((users[-1], SH.deactivated, None))
+        for u in users:
+            sparqlgen.use_component(rng, gen.g, u, params, kind, k)
     return gen.g, graph_from_triples(data), templates
+
+
+def core_part(ms):
+    from collections import Counter
+    return Counter({k: n for k, n in ms.items() if k[3].startswith("I:http%3a;//www.w3.org/ns/shacl#") and not k[3].endswith("#SPARQLConstraintComponent")})
 
 
 def run(ctx, out):
@@ -46,7 +63,8 @@ def run(ctx, out):
     cases = [gen_case(rng) for _ in range(n)]
     lines = []
     for i, (sg, dg, tm) in enumerate(cases):
-        lines.append(vcase.model_line("c%d" % i, sg, dg, sparql=sparqlgen.solution_tables(sg, dg, tm)))
+        sols, tmpl = sparqlgen.solution_tables(sg, dg, tm)
+        lines.append(vcase.model_line("c%d" % i, sg, dg, sparql=(sols, tmpl, sparqlgen.validator_tables(sg, dg, oracle_core.Ref(sg, dg)))))
     replies = ctx.driver.ask(lines)
     for i, (sg, dg, tm) in enumerate(cases):
         out.evaluations += 1
@@ -86,11 +104,20 @@ def run(ctx, out):
             continue
         dms = vcase.declared_msg_shapes(sg)
         a, b = vcase.multiset(code[2], dms, False), vcase.multiset(expect[2], dms, False)
+        # this property speaks about the SPARQL-based components; the Core components of the same shapes are C01's subject
+        # (and its recorded findings): a disagreement confined to Core results is left to that check
+        core_a, core_b = core_part(a), core_part(b)
+        if core_a != core_b:
+            out.count("core_results_differ_left_to_C01")
+            a, b = a - core_a, b - core_b
+            if a == b:
+                continue
+            expect = (expect[0], code[1], expect[2])
         if a != b or code[1] != expect[1]:
             oc, orf = list((a - b).elements()), list((b - a).elements())
             what = "messages" if set(k[:7] for k in oc) == set(k[:7] for k in orf) and oc else ("extra" if oc and not orf else "missing" if orf and not oc else "differ")
             out.b_fail.append({"signature": "C05:%s:%s" % (what, "+".join(kinds)), "case": case, "only_in_code": oc[:3], "only_in_reference": orf[:3]})
-        if any(r["component"].endswith("#SPARQLConstraintComponent") for r in code[2]):
+        if any(r["component"].endswith("#SPARQLConstraintComponent") or "Comp" in r["component"] for r in code[2]):
             out.nontrivial.add(i)
         out.count("results:%s" % ("0" if not code[2] else "1+"))
         out.sample({"queries": [t["text"] for t in tm.values()], "results": len(code[2]), "conforms": code[1]})
